@@ -484,7 +484,7 @@ impl LangGen {
 
     fn int_expr(&mut self, cx: &[Var], depth: usize) -> String {
         let d = depth - 1;
-        match self.rng.below(24) {
+        match self.rng.below(25) {
             0 | 1 => format!("(+ {} {})", self.expr(Ty::Int, cx, d), self.expr(Ty::Int, cx, d)),
             2 => format!("(- {} {})", self.expr(Ty::Int, cx, d), self.expr(Ty::Int, cx, d)),
             3 => format!("(* {} {})", self.expr(Ty::Int, cx, 0), self.rng.range(-2, 3)),
@@ -618,6 +618,34 @@ impl LangGen {
                     2 => format!("(let (({q} ((lambda ({p}) `(,{p} ,{p})) (list 0)))) (set-car! (car {q}) {v}) (car (car (cdr {q}))))", p = p, q = q, v = v),
                     3 => format!("(let (({p} (list 1))) (let (({q} `#(0 ,{p}))) (set-car! {p} {v}) (car (vector-ref {q} 1))))", p = p, q = q, v = v),
                     _ => format!("(let (({p} (vector 1 2))) (let (({q} `(a (b ,{p})))) (vector-set! (car (cdr (car (cdr {q})))) 0 {v}) (vector-ref {p} 0)))", p = p, q = q, v = v),
+                }
+            }
+            23 => {
+                // the rest of the library vocabulary that marwood writes in Scheme (prelude.scm): c[ad][ad]r, the
+                // mem*/ass* family, promises made by make-promise and delay-force, letrec*, unless, substring
+                self.tag("library-vocabulary");
+                let a = self.expr(Ty::Int, cx, d.min(1));
+                let b = self.expr(Ty::Int, cx, 0);
+                let l = self.expr(Ty::List, cx, d.min(1));
+                match self.rng.below(16) {
+                    0 => format!("(cadr (cons {a} (cons {b} {l})))", a = a, b = b, l = l),
+                    1 => format!("(caar (list (list {a} {b}) {l}))", a = a, b = b, l = l),
+                    2 => format!("(car (cdar (list (list {a} {b}) {l})))", a = a, b = b, l = l),
+                    3 => format!("(length (cddr (cons {a} (cons {b} {l}))))", a = a, b = b, l = l),
+                    // (make-promise obj) itself is left out: marwood binds that name to the two-argument constructor
+                    // of the R7RS reference implementation, and the name is not among the forms C01 lists
+                    4 => format!("(force (delay (force (delay {a}))))", a = a),
+                    5 => format!("(let ((cnt 0)) (let ((p (delay (begin (set! cnt (+ cnt 1)) (+ cnt {a}))))) (+ (force p) (force p) cnt)))", a = a),
+                    6 => format!("(force (delay-force (delay (+ {a} {b}))))", a = a, b = b),
+                    7 => format!("(let ((p (delay (+ {a} 1)))) (+ (force p) (force p)))", a = a),
+                    8 => format!("(cdr (assv (modulo {a} 3) '((0 . 10) (1 . 11) (2 . 12))))", a = a),
+                    9 => format!("(let ((r (assq (if (even? {a}) 'b 'zz) '((a 1) (b 2) (c 3))))) (if r (cadr r) -1))", a = a),
+                    10 => format!("(let ((r (assoc (list (modulo {a} 2)) '(((0) . 5) ((1) . 6))))) (if r (cdr r) -1))", a = a),
+                    11 => format!("(length (or (memq (if (even? {a}) 'c 'q) '(a b c d e)) '()))", a = a),
+                    12 => format!("(length (or (member (list (modulo {a} 3)) '((0) (1) (2) (3))) '()))", a = a),
+                    13 => format!("(letrec* ((u {a}) (w (+ u 1)) (f (lambda (n) (if (= n 0) w (f (- n 1)))))) (* u (f 3)))", a = a),
+                    14 => format!("(let ((n {a})) (unless (> n 1000) (set! n (+ n 1)) (set! n (* n 2))) (when (< n -1000) (set! n 0)) n)", a = a),
+                    _ => format!("(string-length (substring \"hello world\" (modulo {a} 5) (+ 5 (modulo {b} 6))))", a = a, b = b),
                 }
             }
             _ => self.leaf(Ty::Int, cx),
